@@ -10,7 +10,7 @@ values in the R-tier / replay.
 
 class LoopSpec(object):
     def __init__(self, ordinal, invariants=(), decreases=None, summarise=None, types=None,
-                 havoc=(), unroll=None, item_type=None, note=None, ghost=None, frame=None):
+                 havoc=(), unroll=None, item_type=None, note=None, ghost=None, frame=None, abstract=None, hints=(), sk_hints=()):
         self.ordinal = ordinal
         self.invariants = list(invariants)   # [(name, expr)]
         self.decreases = decreases
@@ -22,6 +22,9 @@ class LoopSpec(object):
         self.note = note
         self.ghost = ghost
         self.frame = frame
+        self.sk_hints = list(sk_hints)    # same, relative to the bound variables of the goal being proved
+        self.hints = list(hints)          # expressions (positions) at which quantified facts are instantiated
+        self.abstract = abstract          # {"assume": [(name, expr)], "why": text}: loop replaced by an ASSUMED summary
 
 
 class Contract(object):
@@ -56,6 +59,7 @@ class Contract(object):
         self.setup_ = None           # python callable(interp, path) -> dict of arg values (custom symbolic inputs)
         self.assumes_ = []           # [(name, expr)] assumptions (listed in evidence, never silently)
         self.globals_ = {}           # module-global overrides for this function (name -> python value)
+        self.locals_ = {}            # local name -> "<kind> => <type>" (typed model of a local object)
         self.uses_ = {}              # clause name -> callee clause names whose facts may be used
         self.init_fields_ = None     # for __init__ contracts: field -> type of the constructed object
         self.native_checks = []
@@ -166,6 +170,10 @@ class Contract(object):
 
     def post(self, fn):
         self.post_hooks_.append(fn)
+        return self
+
+    def local(self, **decls):
+        self.locals_.update(decls)
         return self
 
     def on_path(self, fn):
